@@ -19,7 +19,11 @@ MutantsOf(i) ==
     Mutants(T, e0, Depth) \cup (IF Pairs = 1 THEN Mutants2(T, e0) ELSE {})
 
 \* what the specification says about encoding x of instance i (computed once per mutant)
-Out(i, x) ==
+\* size checks for the boundary mutants (20 added: there the two readings of the rule differ by 5 % of the size)
+BoundaryDeltas == {0, 10, 20, 100}
+BoundaryOf(i) == UNION {Boundary(Desc[i].type, Desc[i].enc, d) : d \in BoundaryDeltas}
+
+Out(i, x, ds) ==
     LET T  == Desc[i].type
         d0 == Decode(T, Desc[i].enc)
         dm == Decode(T, x)
@@ -28,12 +32,14 @@ Out(i, x) ==
     IN  [inst |-> i - 1, type |-> T, name |-> Desc[i].name, enc |-> x,
          classes |-> Classes(T, x), ok |-> dm.ok, deceq |-> (dm.ok /\ dm.val = d0.val),
          len |-> ln, objsize |-> cs,
-         acc |-> [d \in Deltas |-> dm.ok /\ SizeOK(ln, cs, d)],
+         acc |-> [d \in ds |-> dm.ok /\ SizeOK(ln, cs, d)],
          \* the intended design: with the hash of the canonical content C18 holds for the pair (x, canonical)
          c18 |-> \A d \in Deltas : C18(T, x, Desc[i].enc, d)]
 
-Init == k \in Insts /\ out = Out(k, Desc[k].enc) /\ done = FALSE
-Next == ~done /\ done' = TRUE /\ UNCHANGED k /\ \E x \in MutantsOf(k) : out' = Out(k, x)
+Init == k \in Insts /\ out = Out(k, Desc[k].enc, Deltas) /\ done = FALSE
+Next == /\ ~done /\ done' = TRUE /\ UNCHANGED k
+        /\ \/ \E x \in MutantsOf(k) : out' = Out(k, x, Deltas)
+           \/ \E x \in BoundaryOf(k) : out' = Out(k, x, BoundaryDeltas)
 Spec == Init /\ [][Next]_vars
 
 \* the description binds: the instance is canonical and Size() = length = the model's sizes (checked on the initial states)
